@@ -22,7 +22,7 @@ SPEC = {
 ],
     "manifest": {
         "category": "proof",
-        "text": "Proved for ALL engine states, reachable or not, whose published runs hold no node/relationship tombstone and no property-removal marker (executable compactable_b: no committed delete or removal since the last compaction; C05_compact_partial): compaction (= checkpoint) changes neither nodes(), nor neighbors / incoming_neighbors as multisets, nor node_property / edge_property, nor labels, external ids, lookup \u2014 the segment built from the runs and the sunk store answer like the runs did (older segments and an older store included; non-vacuity Example). C05_nodes_partial: node enumeration unchanged whenever no run holds a node tombstone. Refuted in general: C05_refuted exhibits four histories on which compaction changes reads of the model (= implementation): K-C05-tomb, K-C05-remove, K-C05-dups, K-C05-recreate (new). The edge-free-segment panic (K-C05-edgefree) was repaired (3cec098, corpus regression). NOT proved: the two whole-map reads (node_properties / edge_properties; they differ exactly in K-C05-dups) and states with tombstones / removals outside the classes \u2014 sampled only (compaction steps must not change the dump; the run without compaction/checkpoint steps must give the same dumps at every transaction).",
+        "text": "Proved for ALL engine states, reachable or not, whose published runs hold no node/relationship tombstone and no property-removal marker (executable compactable_b: no committed delete or removal since the last compaction; C05_compact_partial): compaction (= checkpoint) changes neither nodes(), nor neighbors / incoming_neighbors as multisets, nor node_property / edge_property, nor labels, external ids, lookup \u2014 the segment built from the runs and the sunk store answer like the runs did (older segments and an older store included; non-vacuity Example). C05_nodes_partial: node enumeration unchanged whenever no run holds a node tombstone. Refuted in general: C05_refuted exhibits four histories on which compaction changes reads of the model (= implementation): K-C05-tomb, K-C05-remove, K-C05-dups, K-C05-recreate (new). The edge-free-segment panic (K-C05-edgefree) was repaired (3cec098, corpus regression). One history in twenty is a many-properties history: 400-900 property values with distinct keys (160 keys x 4 nodes and 2 relationships) in 2-3 transactions, compaction, more values, compaction again, reopen, a small transaction, checkpoint, so that the sunk property store outgrows one page (root split of the property B-tree); for these every single-key read of the whole key space and every whole-map read is compared before/after each compaction and the reopen in the direct oracle (the Coq dump carries the whole-map reads and the single-key reads of keys 0..2; the model keeps the store as an insertion list). NOT proved: the two whole-map reads (node_properties / edge_properties; they differ exactly in K-C05-dups) and states with tombstones / removals outside the classes \u2014 sampled only (compaction steps must not change the dump; the run without compaction/checkpoint steps must give the same dumps at every transaction).",
         "design_ref": "DESIGN.md §5 C05 (Storage: logical content)",
         "level_note": "Trusted: Coq kernel; hand-written model tied to the code by sampled correspondence (not by proof). The full statement is REFUTED on the pinned code (witness theorem, reproduced on the implementation, recorded as known findings); conditional theorems cover only the part stated in the text.",
         "technique": "Rocq: executable faithful model + spec graph, refutation witnesses by vm_compute, invariants by induction over histories; vm_compute model/implementation correspondence on generated histories; direct search against a reference graph / erased or stripped re-runs on the implementation",
